@@ -15,6 +15,12 @@ Clauses
              clamped into the generated range; the 1/h_f terms only for difference-forming rules)
              (constants.json: C03_tol['method|1|k-bucket|default-order2, default-order4 or user'], else C03_tol / C01_tol
              ['method|1|k-bucket']; missing key or null = weak cell)
+  extrapolated-order   |J - exact|_ej <= C_X[method] * min(U_basic, U_x) + floor with the Richardson-aware unit of
+             multivar.extrapolated_unit (documented leading order p and spacing s restated there; U_x = truncation
+             terms of order >= 1 + p + s t of the majorant series at the window heads + rounding at the window
+             tails, times sum |rule weights| * sum |Richardson weights|, t = min(2, k_est - 1)); asserted for the
+             short geometric user sequences (step kind 'geo': k_est 3..8, largest step 10^U(-2.5,-0.3) of the
+             certified reach) and the default configuration of central / forward / backward
   grad-row   Gradient(f)(x) == squeeze(Jacobian(f)(x.ravel())) (same configuration), bitwise
   direction  |directionaldiff - grad.v/|v|| <= K_DIR (est_dir + sum_j |v_j| est_j / |v|) + floor, asserted when
              both configurations leave >= 2 derivative estimates and reach <= rho_cert/4 (single-estimate error
@@ -37,7 +43,11 @@ FLOOR = 64.0
 AFFINE_REAL = 4096.0
 AFFINE_CSTEP = 64.0
 K_DIR = 1e4
-C_X = {}
+# extrapolated-order clause: |err| <= C_X[method] * min(U_basic, U_x) + floor, asserted for the short geometric user
+# sequences (step kind 'geo') of every method and for the default configuration of the real-step methods.
+# Worst ratios over 8 seeds: central 0.14, complex 0.011, multicomplex (order 2) 1e-4, forward / backward 337.
+C_X = {'central': 10.0, 'complex': 10.0, 'multicomplex': 10.0, 'forward': 1e4, 'backward': 1e4}
+ASSUME_KNOWN = bool(os.environ.get('NVERIF_ASSUME_KNOWN'))     # development aid only, never set by ./check
 OVERFLOW = 1e150
 METHODS = ['central', 'forward', 'backward', 'complex', 'multicomplex']
 GRIDS = [(1, 2), (2, 1), (2, 2), (2, 3), (3, 2), (2, 4), (4, 2), (1, 5), (3, 1)]
@@ -114,7 +124,9 @@ def difference_forming(method, order):
 
 def c_x(method, xcfg):
     """C_X of the extrapolated-order clause, or None where it is not asserted."""
-    return C_X.get('%s|%s' % (method, xcfg))
+    if xcfg == 'geo' or (xcfg == 'default' and method in ('central', 'forward', 'backward')):
+        return C_X.get(method)
+    return None
 
 
 def stencil_width(method):
@@ -171,7 +183,7 @@ class C03(Prop):
     def __init__(self):
         self.table = load_table()
         self.constants = {'FLOOR_eps_multiple': FLOOR, 'AFFINE_REAL_eps_multiple': AFFINE_REAL,
-                          'AFFINE_CSTEP_eps_multiple': AFFINE_CSTEP, 'K_DIR': K_DIR,
+                          'AFFINE_CSTEP_eps_multiple': AFFINE_CSTEP, 'K_DIR': K_DIR, 'C_X': dict(C_X),
                           'tol_table': 'nverif/constants.json:C01_tol (n=1) overridden by C03_tol',
                           'tol_cells_in_force': {k: v for k, v in self.table.items() if '|1|' in k}}
 
@@ -303,6 +315,15 @@ class C03(Prop):
 
     # ------------------------------------------------------------------------------------
     def check(self, case, ctx):
+        try:
+            self._check(case, ctx)
+        except Violation as v:
+            if ASSUME_KNOWN and v.clause == 'extrapolated-order' and case['method'] == 'multicomplex' \
+                    and case['order'] >= 4:
+                ctx.skip('dev switch: reported class multicomplex with order >= 4 (Richardson assumes h^order)')
+            raise
+
+    def _check(self, case, ctx):
         import numdifftools as nd
         prog, x, api = case['prog'], case['x'], case['api']
         method, order = case['method'], case['order']
